@@ -106,3 +106,26 @@ func vFixChecksum(raw []byte) {
 		binary.LittleEndian.PutUint32(raw[8:], generatePacketChecksum(raw))
 	}
 }
+
+// vStub asks the engine to summarise a pure callee that is not the subject of the
+// harness (listed in the evidence); natively the real code runs.
+func vStub(name string) {}
+
+// Natively a mutex cannot be queried; TryLock answers "held" without blocking.
+func vMutexHeldNative(m interface {
+	TryLock() bool
+	Unlock()
+}) bool {
+	if m.TryLock() {
+		m.Unlock()
+		return false
+	}
+	return true
+}
+
+func vRWMutexHeldNative(m interface {
+	TryLock() bool
+	Unlock()
+}) bool {
+	return vMutexHeldNative(m)
+}
